@@ -162,7 +162,15 @@ class MExpander(Expander):
             return self.need_m(self.eval(node.args[0], env)).matmul(self.need_m(self.eval(node.args[1], env)))
         if short in ("eye", "identity"):
             return M.eye()
-        if short == "cholesky" and len(node.args) == 1:
+        if short == "cholesky" and len(node.args) >= 1:
+            # resolved callee decides the triangle: numpy.linalg.cholesky is lower; scipy.linalg.cholesky is
+            # upper unless lower=True is passed
+            lower_kw = next((k.value for k in node.keywords if k.arg == "lower"), None)
+            if q is None or not (q.startswith("numpy.linalg") or q.startswith("scipy.linalg")):
+                raise Unsupported(f"cholesky resolves to `{q}`")
+            if q.startswith("scipy.linalg") and not (lower_kw is not None and ast.unparse(lower_kw) == "True"):
+                self.problems.append(f"`{ast.unparse(node)}` resolves to {q}, which returns the UPPER factor by default, "
+                                     f"but the code treats the result as the lower factor L (L L^T = X)")
             X = self.need_m(self.eval(node.args[0], env))
             self.chol["L"] = X
             return M.atom("L", 2)
